@@ -100,8 +100,10 @@ def run_cancel(case):
         if not lazy:
             watch(d, k)
 
-    def do_watch(beh):
-        # when_disconnected(); the callback notes the request's number and then does what `beh` says
+    def do_watch(beh, legacy=False):
+        # when_disconnected(); the callback notes the request's number and then does what `beh` says.
+        # legacy: the same request made through the deprecated `on_disconnect` Deferred, which connectionLost fires
+        # right after the when_disconnected() observers - the generator marks only the last request before the loss
         w = nwatch[0]
         nwatch[0] += 1
 
@@ -111,6 +113,9 @@ def run_cancel(case):
                 do_watch('plain')
             elif beh == 'submit':
                 do_submit()
+        if legacy and proto.on_disconnect is not None and not proto.on_disconnect.called:
+            proto.on_disconnect.addBoth(told)
+            return
         proto.when_disconnected().addBoth(told)     # the value is a Failure: it travels the errback chain
 
     pre = []
@@ -155,7 +160,7 @@ def run_cancel(case):
             elif o[0] == 'cancel':
                 ds[o[1]].cancel()
             elif o[0] == 'watch':
-                do_watch(o[1])
+                do_watch(o[1], legacy=len(o) > 2)
             elif o[0] == 'reply':
                 nreplied[0] += 1
                 proto.dataReceived(b'250 OK\r\n')
@@ -246,6 +251,22 @@ def gen_cancel(rng):
         ops.append(['lose'])
     raw = [k for k in range(n) if rng.random() < 0.15]
     empty = [k for k in range(n) if k not in raw and rng.random() < 0.08]
+    # the last notification request before the (effective) loss may come through the deprecated on_disconnect
+    ans, canc, loss_i = 0, set(), None
+    for i, o in enumerate(ops):
+        if o[0] == 'cancel':
+            canc.add(o[1])
+        elif o[0] == 'reply':
+            ans += 1
+        elif o[0] == 'lose' or (o[0] == 'replylose' and ans not in canc):
+            loss_i = i
+            break
+        elif o[0] == 'replylose':
+            ans += 1
+    if loss_i is not None and rng.random() < 0.35:
+        ws = [i for i in range(loss_i) if ops[i][0] == 'watch']
+        if ws:
+            ops[ws[-1]] = ops[ws[-1]] + ['legacy']
     c = {'fam': 'cancel', 'ops': ops, 'lazy': lazy, 'raw': raw, 'empty': empty}
     if rng.random() < 0.25:
         # a locally started close some operations before the loss is delivered
